@@ -115,6 +115,7 @@ class FitYamlWriter(YamlWriterMixin, FitDReprBase):
 
         _yaml_doc["minimizer"] = fit._minimizer
         _yaml_doc["minimizer_kwargs"] = fit._minimizer_kwargs
+        _yaml_doc["dynamic_error_algorithm"] = fit.dynamic_error_algorithm
 
         _yaml_doc["parameter_constraints"] = [
             ConstraintYamlWriter._make_representation(_parameter_constraint) for _parameter_constraint in fit.parameter_constraints
@@ -233,6 +234,10 @@ class FitYamlReader(YamlReaderMixin, FitDReprBase):
                     ParameterFormatter(arg_name=_arg_name, name=_name) for (_arg_name, _name) in _par_formatters.items()
                 ]
             _fit_object._update_parameter_formatters()
+
+        _dynamic_error_algorithm = yaml_doc.pop("dynamic_error_algorithm", None)
+        if _dynamic_error_algorithm is not None:
+            _fit_object.dynamic_error_algorithm = _dynamic_error_algorithm
 
         if _read_parametric_model is not None:
             _fit_object._param_model = _read_parametric_model
